@@ -905,7 +905,7 @@ def weave_cache_dir_head(u):
     INV = ('C02 C18:valid-on-every-exit', 'final(w).inv()')
     BOOK = ('', 'final(w).kept(*old(w)) && final(w).listed == old(w).listed')
 
-    f = u.under_contract(u.item('src/cache_dir.rs', ['fn validate_file_name']), ['C16'])
+    f = u.under_contract(u.item('src/cache_dir.rs', ['fn validate_file_name']), ['C16', 'C11'])
     f.air = 'cache_dir::validate_file_name'
     f.replace('Error :: new', 'io_error_new', 'T2-rebind')
     f.contract(ensures=[
@@ -914,7 +914,7 @@ def weave_cache_dir_head(u):
         ('C16:accepted-names-are-single-components-outside-the-dot-namespace',
          'r.is_ok() ==> r.unwrap() == name && valid_key(str_bytes(name))'),
         ('C16:only-invalid-input-is-ever-reported', 'r.is_err() ==> err_kind(err_of(r)) == ErrorKind::InvalidInput'),
-        ('C05 C18 C16:only-invalid-names-are-rejected', 'r.is_err() ==> !first_byte_ok(str_bytes(name)) || str_bytes(name).contains(0x2fu8)'),
+        ('C11:names-the-documentation-allows-are-accepted', 'first_byte_ok(str_bytes(name)) && !str_bytes(name).contains(0x2fu8) && !str_bytes(name).contains(0u8) ==> r.is_ok()'),
     ])
     f.body_start('proof { if first_byte_ok(str_bytes(name)) && !str_bytes(name).contains(0x2fu8) { lemma_valid_key(str_bytes(name)); } }')
 
@@ -1260,7 +1260,7 @@ pub open spec fn write_frame(old: World, fin: World, base: PathV, name: Seq<u8>,
             ('C04 C11 C18:present-entry-is-found',
              'r.is_ok() && old(w).files.contains_key(%s) ==> r.unwrap().is_some()' % TARGET),
             ('C18 C05:error-is-an-invalid-name-or-a-real-fault',
-             'r.is_err() ==> !first_byte_ok(str_bytes(name)) || str_bytes(name).contains(0x2fu8) || final(w).hard_faults > old(w).hard_faults'),
+             'r.is_err() ==> err_kind(err_of(r)) == ErrorKind::InvalidInput || final(w).hard_faults > old(w).hard_faults'),
         ])
     g.body_start('broadcast use group_asref;\n        proof { if valid_key(str_bytes(name)) && old(w).configured_dir(self.spec_base()) && old(w).files.contains_key(%s) { lemma_entry_supplied(*old(w), self.spec_base(), str_bytes(name)); } }' % TARGET)
     u.trait_methods = {'get': g}
@@ -1287,7 +1287,7 @@ pub open spec fn write_frame(old: World, fin: World, base: PathV, name: Seq<u8>,
              'final(w).atime_only(*old(w)) && forall|i: InodeId| #[trigger] old(w).inodes.contains_key(i) ==> '
              '(final(w).inodes[i].atime != old(w).inodes[i].atime ==> old(w).files.contains_key(%s) && i == old(w).files[%s])' % (TARGET, TARGET)),
             ('C18 C05:error-is-an-invalid-name-or-a-real-fault',
-             'r.is_err() ==> final(w).same_fs(*old(w)) && (!first_byte_ok(str_bytes(name)) || str_bytes(name).contains(0x2fu8) || final(w).hard_faults > old(w).hard_faults)'),
+             'r.is_err() ==> final(w).same_fs(*old(w)) && (err_kind(err_of(r)) == ErrorKind::InvalidInput || final(w).hard_faults > old(w).hard_faults)'),
         ])
     th.body_start('broadcast use group_asref;')
     u.trait_methods['touch'] = th
@@ -1406,7 +1406,7 @@ pub open spec fn write_frame(old: World, fin: World, base: PathV, name: Seq<u8>,
                 ('C15 C16 C17:nothing-outside-this-cache-directory-changes',
                  'write_frame(*old(w), *final(w), self.spec_base(), str_bytes(name), pv(value))'),
                 ('C18 C05:error-is-explained',
-                 'r.is_err() ==> !first_byte_ok(str_bytes(name)) || str_bytes(name).contains(0x2fu8) || final(w).hard_faults > old(w).hard_faults '
+                 'r.is_err() ==> err_kind(err_of(r)) == ErrorKind::InvalidInput || final(w).hard_faults > old(w).hard_faults '
                  '|| !final(w).files.contains_key(pv(value))'),
             ])
         f.body_start('broadcast use group_asref;\n        proof { lemma_cleanup_frame_same(*old(w), self.spec_base()); }')
